@@ -24,6 +24,17 @@ def run(rep, tier, seed, pa):
     results = ac.align_many(pa, [(case, "cbc" if k % 2 == 0 else "glpk-noimport", False) for k, case in enumerate(cases)])
     items = list(zip(cases, results))
     facts = ac.judge_many(rep, items, part=True, want_optimal=True, limit=20 if tier == "quick" else 40)
+    # the SAME continuum and dissimilarity objects: aligned once (best alignment), edited in place (a unit moved, counts kept / an annotator
+    # declared), then the best alignment asked again - it must be valid and minimal for the continuum as it is now
+    pairs = [(c, ac.edited_case(rng, c)) for c in cases[:40 if tier == "quick" else 400]]
+    pairs = [(c, a) for c, a in pairs if a is not None]
+    for c, a in pairs:
+        a["first_soft"] = False
+    rres = ac.realign_many(pa, [(c, a, "cbc" if k % 2 == 0 else "glpk-noimport", False, False) for k, (c, a) in enumerate(pairs)])
+    ac.judge_many(rep, [(a, r) for (c, a), r in zip(pairs, rres)], part=True, want_optimal=True, limit=20, prefix="re-aligned:")
+    for (c, a), r in zip(pairs, rres):
+        rep.count("re-aligned_after=" + a["edit"][0])
+        rep.case(nontrivial_key=(repr(a["units"]), a["spec"], "re-aligned") if r["error"] is None else None)
     for (case, res), f in zip(items, facts):
         I = res.get("I")
         rep.count("backend=" + res["mode"])
@@ -61,10 +72,8 @@ def run(rep, tier, seed, pa):
 
 def replay(rep, data, pa):
     ac.install_backend_hooks()
-    case = {"units": [[tuple(u) for u in us] for us in data["units"]], "spec": tuple(data["dissim"]), "pattern": "replay", "unlabelled": False}
-    mode = data.get("mode") or "cbc"
-    res = ac.align_case(pa, case, mode)
-    res["mode"] = mode
+    case, res = ac.replay_align(pa, data, soft=False)
+    mode = res["mode"]
     f = ac.judge_many(rep, [(case, res)], part=True, want_optimal=True, limit=300)[0]
     if f.get("lib_exact_disorder") is not None and not close(res["disorder"], f["lib_exact_disorder"], TAU2):
         rep.violation("reported-disorder", {}, "reported disorder differs from exact")
